@@ -1027,6 +1027,124 @@ fn replay_inbound_query(sc: &Value) -> Value {
     })
 }
 
+// ---- C10: the three construction paths through the real API (two database instances)
+fn replay_room_three_paths(sc: &Value) -> Value {
+    use crate::database::graph_database::GraphDatabaseService;
+    use crate::database::query_language::parameter::{Parameters, ParametersAdd};
+    let rt = tokio::runtime::Builder::new_multi_thread().enable_all().worker_threads(2).build().unwrap();
+    rt.block_on(async {
+        let base = std::env::var("VERIF_DATA_DIR").unwrap_or_else(|_| "/var/cache/discret-verif/data".to_string());
+        let tag = format!("{}", crate::date_utils::now());
+        let path_a: std::path::PathBuf = format!("{}/c10/{}/a", base, tag).into();
+        let path_b: std::path::PathBuf = format!("{}/c10/{}/b", base, tag).into();
+        std::fs::create_dir_all(&path_a).unwrap();
+        std::fs::create_dir_all(&path_b).unwrap();
+        let model = "ns { E{ name:String } }";
+        let secret = crate::security::random32();
+        let pk = crate::security::random32();
+        let start = |p: std::path::PathBuf, secret: [u8; 32], pk: [u8; 32]| async move {
+            GraphDatabaseService::start("verif c10", model, &secret, &pk, p, &crate::configuration::Configuration::default(), crate::event_service::EventService::new()).await
+        };
+        let (app, own_key, _) = start(path_a.clone(), secret, pk).await.unwrap();
+        // every key of the scenario is a generated key, except K1 = the local user (the admin who authors every entry)
+        let mut keys = Keys::new();
+        let kb64 = |keys: &mut Keys, name: &str, own: &Vec<u8>| -> String {
+            if name.starts_with("K1") { crate::security::base64_encode(own) } else { crate::security::base64_encode(&keys.vk(name)) }
+        };
+        let room = &sc["room"];
+        let g = &room["groups"][0];
+        // live path: the entries are created one mutation after the other, in the order of the history
+        let mut p = Parameters::default();
+        p.add("k", kb64(&mut keys, room["admins"][0][0].as_str().unwrap(), &own_key)).unwrap();
+        let created = app
+            .mutate_raw(r#"mutate { sys.Room{ admin:[{ verif_key:$k }] authorisations:[{ name:"g" }] } }"#, Some(p))
+            .await
+            .unwrap();
+        let room_id = crate::security::base64_encode(&created.mutate_entities[0].node_to_mutate.id);
+        let room_uid = created.mutate_entities[0].node_to_mutate.id;
+        let auth_id = crate::security::base64_encode(&created.mutate_entities[0].sub_nodes.get("authorisations").unwrap()[0].node_to_mutate.id);
+        let mut live_errors: Vec<String> = vec![];
+        let pause = || std::thread::sleep(std::time::Duration::from_millis(3));
+        for a in room["admins"].as_array().unwrap().iter().skip(1) {
+            pause();
+            let mut p = Parameters::default();
+            p.add("rid", room_id.clone()).unwrap();
+            p.add("k", kb64(&mut keys, a[0].as_str().unwrap(), &own_key)).unwrap();
+            p.add("en", a[2].as_bool().unwrap()).unwrap();
+            if let Err(e) = app.mutate_raw(r#"mutate { sys.Room{ id:$rid admin:[{ verif_key:$k enabled:$en }] } }"#, Some(p)).await {
+                live_errors.push(format!("{}", e));
+            }
+        }
+        for (field, list) in [("users", &g["users"]), ("user_admin", &g["user_admins"])] {
+            for a in list.as_array().unwrap() {
+                pause();
+                let mut p = Parameters::default();
+                p.add("rid", room_id.clone()).unwrap();
+                p.add("aid", auth_id.clone()).unwrap();
+                p.add("k", kb64(&mut keys, a[0].as_str().unwrap(), &own_key)).unwrap();
+                p.add("en", a[2].as_bool().unwrap()).unwrap();
+                let q = format!("mutate {{ sys.Room{{ id:$rid authorisations:[{{ id:$aid {}:[{{ verif_key:$k enabled:$en }}] }}] }} }}", field);
+                if let Err(e) = app.mutate_raw(&q, Some(p)).await {
+                    live_errors.push(format!("{}", e));
+                }
+            }
+        }
+        for r in g["rights"].as_array().unwrap() {
+            pause();
+            let mut p = Parameters::default();
+            p.add("rid", room_id.clone()).unwrap();
+            p.add("aid", auth_id.clone()).unwrap();
+            p.add("ent", r[0].as_str().unwrap().to_string()).unwrap();
+            p.add("ms", r[2].as_bool().unwrap()).unwrap();
+            p.add("ma", r[3].as_bool().unwrap()).unwrap();
+            if let Err(e) = app
+                .mutate_raw("mutate { sys.Room{ id:$rid authorisations:[{ id:$aid rights:[{ entity:$ent mutate_self:$ms mutate_all:$ma }] }] } }", Some(p))
+                .await
+            {
+                live_errors.push(format!("{}", e));
+            }
+        }
+        if !live_errors.is_empty() {
+            return json!({"status": "precondition", "detail": live_errors});
+        }
+        // a probe decision on the live instance: can the local user write the queried entity in that room right now
+        let probe = |app: GraphDatabaseService, room_id: String, ent: String| async move {
+            if ent != "E" {
+                return None;
+            }
+            let mut p = Parameters::default();
+            p.add("rid", room_id).unwrap();
+            Some(app.mutate_raw(r#"mutate { ns.E{ room_id:$rid name:"probe" } }"#, Some(p)).await.is_ok())
+        };
+        let ent = sc["query"]["entity"].as_str().unwrap_or("E").to_string();
+        let live_decision = probe(app.clone(), room_id.clone(), ent.clone()).await;
+        // export
+        let exported = app.get_room_node(room_uid).await.unwrap();
+        drop(app);
+        std::thread::sleep(std::time::Duration::from_millis(300));
+        // reload: restart on the same files
+        let reloaded = start(path_a.clone(), secret, pk).await;
+        let reload_ok = reloaded.is_ok();
+        let reload_err = reloaded.as_ref().err().map(|e| format!("{}", e));
+        let mut reload_decision = None;
+        if let Ok((app2, _, _)) = reloaded {
+            reload_decision = probe(app2.clone(), room_id.clone(), ent.clone()).await;
+        }
+        // import on a fresh instance
+        let (app_b, _, _) = start(path_b.clone(), crate::security::random32(), crate::security::random32()).await.unwrap();
+        let import = match exported {
+            Some(node) => app_b.add_room_node(node).await.map_err(|e| format!("{}", e)),
+            None => Err("room not exported".to_string()),
+        };
+        let decisions_differ = match (live_decision, reload_decision) {
+            (Some(a), Some(b)) => a != b,
+            _ => false,
+        };
+        json!({"status": "done", "reload_ok": reload_ok, "reload_error": reload_err, "import_ok": import.is_ok(), "import_error": import.err(),
+               "live_decision": live_decision, "reload_decision": reload_decision, "decisions_differ": decisions_differ})
+    })
+}
+
 pub fn dispatch(sc: &Value) -> Value {
     match sc["kind"].as_str().unwrap_or("") {
         "entity_mutation" => replay_entity_mutation(sc),
@@ -1035,6 +1153,7 @@ pub fn dispatch(sc: &Value) -> Value {
         "c12_mutation" => replay_c12_mutation(sc),
         "daily_marks" => replay_daily_marks(sc),
         "bytes_decoder" => replay_bytes_decoder(sc),
+        "room_three_paths" => replay_room_three_paths(sc),
         "rooms_for_peer" => replay_rooms_for_peer(sc),
         "local_event_admission" => replay_local_event_admission(sc),
         "inbound_query" => replay_inbound_query(sc),
